@@ -36,6 +36,7 @@ SPECIAL = [
     'aੁb', 'ਊ', '഍ਊ', 'ੁ　', '䄀ੁ',
     'sep line', 'nel\u0085x', 'vt\x0bx', 'ff\x0cx',
     'é', 'Жя', '中文', '{"json": 1}', '}', '..', '...',
+    'ctrl\x1az', '\u041a\u0438\u0440', '\x1a',
     '\ufffd replacement', 'mid\ufffddle', '>From the archive', '>>From nested',
     '@@ -1,2 +1,2', '@@@ -1 -1 +1',
     'e\u0301 decomposed', '\u212b \u2126 compat', '\u1100\u1161 jamo',
